@@ -10,6 +10,7 @@
   differential run and the oracle of harness/props/C10.py check.
 -/
 import ICal.Lemmas.Ser
+import ICal.Lemmas.BodiesSer
 namespace ICal.C10
 
 /-! ### with sorting on, insertion order of distinct names is immaterial -/
@@ -168,5 +169,24 @@ example : balancedItems [] (items false t1) = true := by decide
 example : addMissingFrom (fun _ => true) [s "Europe/Berlin", s "America/New_York"] (.mk (s "VCALENDAR") [] [])
     = addMissingFrom (fun _ => true) [s "America/New_York", s "Europe/Berlin"] (.mk (s "VCALENDAR") [] []) :=
   (addMissing_enumeration_free _ _ _ _).1 (List.Perm.swap _ _ _)
+
+/-! ## Regenerated function body = hand model
+
+  `ICal.Gen.BodiesSer.Component_property_items` is written by tools/py2lean.py from the current source of
+  `Component.property_items` on every run: `self` is the tree `Comp` (definition by pattern matching), the
+  loops over the property names, over a list of values and over `self.subcomponents` are separate
+  definitions in one `mutual` block, and the recursive call `subcomponent.property_items(sorted=sorted)` has
+  its arguments BOUND BY THE SIGNATURE as Python binds them (`recursive` takes its default `True`, `sorted`
+  the keyword) - a call `property_items(sorted)` would bind `recursive`.  External pieces are parameters:
+  `vText(self.name).to_ical()`, `self.sorted_keys()`, `self.keys()`, `self[name]` (ICal/Lemmas/BodiesSer.lean
+  instantiates them with what the hand model says: `escapeChar`, `canonsort` of the keys by the class's
+  canonical order, the stored names, the entry of that name or KeyError).  The theorem: the translated
+  method does not raise and what the serialiser observes of its result (`Bodies.ivItem`) is the model's
+  `items`, which every theorem above is about. -/
+
+theorem body_property_items (sorted : Bool) (c : Comp) :
+    ∃ l, Gen.BodiesSer.Component_property_items Bodies.nameToIcalP Bodies.sortedKeysP Bodies.keysP Bodies.getitemP
+        c true sorted = .ok l ∧ l.map Bodies.ivItem = items sorted c :=
+  Bodies.property_items_items sorted c
 
 end ICal.C10
